@@ -49,6 +49,7 @@ class NativeK(KBase):
         self.model = {k: v for k, v in self.model.items() if v is not None}
         self.rng = np.random.default_rng(seed)
         self.tol = tol
+        self._called_before: set = set()
         self.clauses: list = []  # (name, ok, detail)
         self.saved: dict = {}
         self.arrays: dict = {}
@@ -242,10 +243,28 @@ class NativeK(KBase):
         ok = np.array_equal(arr, self.saved[id(arr)], equal_nan=True)
         self.clauses.append((self._name(clause), bool(ok), "input array modified" if not ok else ""))
 
+    def _perturbed(self, x):
+        """an array of the same shape / dtype with slightly different content (integer arrays unchanged)"""
+        if isinstance(x, np.ndarray) and x.dtype.kind in "fc" and x.size:
+            noise = self.rng.normal(size=x.shape)
+            return (x * (1.0 + 1e-3 * noise) + 1e-3 * self.rng.normal(size=x.shape)).astype(x.dtype)
+        if isinstance(x, np.ndarray):
+            return x.copy()
+        return x
+
     def run(self, fn, *a, **kw):
         # the real closure; arrays created *after* earlier cells were drawn must be re-saved
         for nm, (arr, _k, _s) in self.arrays.items():
             self.saved[id(arr)] = arr.copy()
+        # call history: the first time a generated closure is used in this run it has ALREADY been called once, on other
+        # arrays of the same shapes with slightly different content (a closure that remembers anything from an earlier
+        # call -- a cached difference, a lazily allocated and never refreshed scratch field -- then answers wrongly)
+        if id(fn) not in self._called_before:
+            self._called_before.add(id(fn))
+            try:
+                fn(*[self._perturbed(x) for x in a], **{k: self._perturbed(v) for k, v in kw.items()})
+            except Exception:  # noqa: BLE001  -- the earlier call is only history; the call under contract decides
+                pass
         return fn(*a, **kw)
 
     def expect_raises(self, clause, exc_types, fn, *a, props=None, **kw):
